@@ -67,12 +67,12 @@ Next == /\ k < KMax /\ k' = k + 1 /\ UNCHANGED sys
 
 \* ------------------------------------------------------------------ invariants
 RefIterate ==
-    CASE IsCG(sys.m) -> [x |-> CGRef(A, P, f, x0, k), def |-> TRUE]
-      [] IsBs(sys.m) -> BiCGStabRef(A, P, f, x0, k, Side(sys.m))
-      [] IsGmres(sys.m) -> [x |-> GmresRef(A, P, f, x0, k, Restart(sys.m), Side(sys.m)), def |-> TRUE]
-      [] OTHER -> [x |-> RichardsonRef(A, P, f, x0, k, Omega(sys.m)), def |-> TRUE]
+    CASE IsCG(sys.m) -> [x |-> CGRef(A, P, f, x0, k), def |-> TRUE, big |-> FALSE]
+      [] IsBs(sys.m) -> BiCGStabRef(A, P, f, x0, k, Side(sys.m), BsBound)
+      [] IsGmres(sys.m) -> [x |-> GmresRef(A, P, f, x0, k, Restart(sys.m), Side(sys.m)), def |-> TRUE, big |-> FALSE]
+      [] OTHER -> [x |-> RichardsonRef(A, P, f, x0, k, Omega(sys.m)), def |-> TRUE, big |-> FALSE]
 \* the program's k-th iterate is the defined one (both break down on the same inputs)
-ProgMatchesRef == LET ref == RefIterate IN (st.def = ref.def) /\ (st.def => VEq(st.x, ref.x))
+ProgMatchesRef == LET ref == RefIterate IN ref.big \/ ((st.def = ref.def) /\ (st.def => VEq(st.x, ref.x)))
 \* finite termination: after N steps the Krylov methods hold the exact solution
 Exact == SolveQ(A, f)
 TerminatesAtN == (k = N /\ st.def /\ (IsCG(sys.m) \/ IsBs(sys.m) \/ (IsGmres(sys.m) /\ Restart(sys.m) >= N))) => VEq(st.x, Exact)
